@@ -142,6 +142,27 @@ def gen_arch(rnd, w, levels=None, size_class=None, costs=None):
     return {"mems": mems, "mac": mac, "levels": levels, "size_class": size_class, "costs": costs}
 
 
+def shrinking_chain_spec(rnd, n_einsums=2, costs="tradeoff"):
+    """Matmul chain whose LAST Einsum is much smaller than the first, with a buffer that holds all tensors of the
+    last Einsum but not those of the first one (capacity binds for E0 only)."""
+    d = gen_spec(rnd, "chain2" if n_einsums == 2 else "chain3", levels=2, size_class="tight", costs=costs)
+    w = d["workload"]
+    rvs = ["n%d" % i for i in range(n_einsums + 1)]
+    w["ranks"]["m"] = rnd.choice([2, 3, 4])
+    w["ranks"][rvs[0]] = rnd.choice([4, 6, 8])
+    w["ranks"][rvs[1]] = rnd.choice([4, 6])
+    for rv in rvs[2:]:
+        w["ranks"][rv] = 2
+    sz = tensor_sizes(w)
+    per = [sum(sz[t["name"]] for t in e["tensors"]) for e in w["einsums"]]
+    lo, hi = per[-1], max(per[-1] + 1, per[0] - 1)
+    d["arch"]["mems"][0]["keep"] = "~Intermediates"
+    d["arch"]["mems"][1].update(size=rnd.randint(lo, hi) * w["bits"], keep="~MainMemory", may_keep="All")
+    d["arch"]["size_class"] = "tight-shrinking"
+    d["class"] = f"{w['kind']}/2L/tight-shrinking/{costs}"
+    return d
+
+
 def gen_spec(rnd, wkind=None, **arch_kw):
     w = gen_workload(rnd, wkind)
     a = gen_arch(rnd, w, **arch_kw)
